@@ -26,6 +26,7 @@ type Options struct {
 	Mutation   string
 	NoEvidence bool
 	Verbose    bool
+	MutSummary string // file with the output of tools/mutations.sh for this property (thorough tier)
 }
 
 // KnownFile is /verif/known_findings.json.
@@ -43,9 +44,11 @@ type KnownFinding struct {
 
 // Exemption is one reviewed exception of a rule.
 type Exemption struct {
-	Rule   string `json:"rule"`
-	Key    string `json:"key"`
-	Reason string `json:"reason"`
+	Rule      string `json:"rule"`
+	Key       string `json:"key,omitempty"`
+	Construct string `json:"construct,omitempty"`
+	Scope     string `json:"scope,omitempty"`
+	Reason    string `json:"reason"`
 }
 
 func readJSON(path string, v any) error {
@@ -103,7 +106,11 @@ func Main(o Options) int {
 		}
 		ctx.Exemptions = map[string]string{}
 		for _, e := range exs {
-			ctx.Exemptions[e.Key] = e.Reason
+			if e.Key != "" {
+				ctx.Exemptions[e.Key] = e.Reason
+			} else if e.Construct != "" && e.Scope != "" {
+				ctx.Scoped = append(ctx.Scoped, rules.ScopedExemption{Rule: e.Rule, Construct: e.Construct, Scope: e.Scope, Reason: e.Reason})
+			}
 		}
 	}
 	if o.Dump != "" {
@@ -156,9 +163,9 @@ func Main(o Options) int {
 		for i := range r.Obls {
 			ob := &r.Obls[i]
 			if ob.Verdict == rules.Violated || ob.Verdict == rules.Undecided {
-				if e, ok := exMap[ob.Key]; ok && e.Rule == ob.Rule {
+				if reason, ok := ctx.ExemptReason(ob.Rule, ob.Key); ok {
 					ob.Verdict = rules.Exempt
-					ob.Reason = e.Reason
+					ob.Reason = reason
 					usedEx[ob.Key] = true
 				}
 			}
@@ -321,6 +328,41 @@ func writeEvidence(o Options, prop *rules.Property, seed int, all []rules.Obliga
 		"exhaustive":          true,
 		"trusted_base":        prop.TrustedBase,
 	}
+	if o.MutSummary != "" {
+		if b, err := os.ReadFile(o.MutSummary); err == nil {
+			sens := map[string]any{}
+			var missed, falseAlarms, lines []string
+			det, silent, skipped := 0, 0, 0
+			for _, l := range strings.Split(string(b), "\n") {
+				switch {
+				case strings.Contains(l, ": DETECTED"), strings.Contains(l, ": UNDECIDED-AS-DESIGNED"):
+					det++
+				case strings.Contains(l, ": SILENT-AS-EXPECTED"):
+					silent++
+				case strings.Contains(l, ": MISSED"):
+					missed = append(missed, l)
+				case strings.Contains(l, ": FALSE-ALARM"):
+					falseAlarms = append(falseAlarms, l)
+				case strings.Contains(l, ": SKIPPED"), strings.Contains(l, ": BROKEN"):
+					skipped++
+				}
+				if strings.HasPrefix(l, "MUTATION") {
+					if len(l) > 200 {
+						l = l[:200]
+					}
+					lines = append(lines, l)
+				}
+			}
+			sens["mutations_applied_as_overlay"] = len(lines)
+			sens["detected"] = det
+			sens["benign_silent"] = silent
+			sens["missed"] = missed
+			sens["false_alarms"] = falseAlarms
+			sens["skipped"] = skipped
+			sens["results"] = lines
+			cov["sensitivity_corpus"] = sens
+		}
+	}
 	if prop.Level == "proof" {
 		cov["obligations"] = len(all)
 		cov["discharged"] = discharged
@@ -482,7 +524,7 @@ func runAll(ctx *rules.Ctx, o Options) int {
 				if ob.Verdict != rules.Violated && ob.Verdict != rules.Undecided {
 					continue
 				}
-				if _, ex := ctx.Exemptions[ob.Key]; ex {
+				if _, ex := ctx.ExemptReason(ob.Rule, ob.Key); ex {
 					continue
 				}
 				if knownMap[ob.Key] {
